@@ -54,14 +54,18 @@ fn parse<T: clap::Args>(flags: &[&str]) -> Result<T, String> {
 }
 
 const BACKENDS: &[(&str, &[&[&str]])] = &[
-    ("rust", &[&["--generate-all"], &["--generate-all", "--async=all"], &["--generate-all", "--ownership=borrowing"], &["--generate-all", "--ownership=borrowing-duplicate-if-necessary"], &["--generate-all", "--std-feature"], &["--generate-all", "--stubs"], &["--generate-all", "--merge-structurally-equal-types"], &["--generate-all", "--map-type=std::collections::HashMap"], &["--generate-all", "--merge-structurally-equal-types", "--ownership=borrowing-duplicate-if-necessary", "--async=all", "--stubs"], &[]]),
-    ("c", &[&[], &["--async=all"], &["--autodrop-borrows=yes"], &["--no-sig-flattening"], &["--no-helpers"]]),
-    ("cpp", &[&[]]),
+    ("rust", &[&["--generate-all"], &["--generate-all", "--async=all"], &["--generate-all", "--ownership=borrowing"], &["--generate-all", "--ownership=borrowing-duplicate-if-necessary"], &["--generate-all", "--std-feature"], &["--generate-all", "--stubs"], &["--generate-all", "--merge-structurally-equal-types"], &["--generate-all", "--map-type=std::collections::HashMap"], &["--generate-all", "--merge-structurally-equal-types", "--ownership=borrowing-duplicate-if-necessary", "--async=all", "--stubs"], &[],
+        // every list-valued option given several values (each is a Vec in Opts; sets and maps built from them must not leak their order)
+        &["--generate-all", "--skip=alpha", "--skip=bravo", "--skip=charlie", "--skip=delta", "--skip=echo", "-d", "PartialEq", "-d", "Eq", "-d", "Hash", "-d", "PartialOrd", "--additional-derive-ignore=one", "--additional-derive-ignore=two", "--additional-derive-ignore=three", "--additional-derive-ignore=four"],
+        // (selectors that match nothing are an error; the error text lists them and is compared too)
+        &["--generate-all", "--additional-type-attributes=alpha=#[doc(hidden)]", "--additional-type-attributes=bravo=#[doc(hidden)]", "--additional-type-attributes=charlie=#[doc(hidden)]", "--additional-member-attributes=alpha=#[doc(hidden)]", "--additional-member-attributes=bravo=#[doc(hidden)]", "--additional-member-attributes=delta=#[doc(hidden)]"]]),
+    ("c", &[&[], &["--async=all"], &["--autodrop-borrows=yes"], &["--no-sig-flattening"], &["--no-helpers"], &["--rename", "verif:dep0/types=r0t", "--rename", "verif:dep0/api=r0a", "--rename", "verif:dep0/core=r0c", "--rename", "verif:dep1/types=r1t", "--rename", "verif:dep1/api=r1a", "--rename", "verif:dep1/core=r1c", "--rename", "verif:dep2/types=r2t", "--rename", "verif:dep2/api=r2a", "--rename", "verif:dep2/core=r2c"]]),
+    ("cpp", &[&[], &["--with=verif:dep0/types=w0t.h", "--with=verif:dep0/api=w0a.h", "--with=verif:dep0/core=w0c.h", "--with=verif:dep1/types=w1t.h", "--with=verif:dep1/api=w1a.h", "--with=verif:dep1/core=w1c.h", "--with=verif:dep2/types=w2t.h", "--with=verif:dep2/api=w2a.h", "--with=verif:dep2/core=w2c.h"]]),
     ("csharp", &[&["--runtime=native-aot"], &["--runtime=native-aot", "--generate-stub"], &["--runtime=mono"], &["--runtime=native-aot", "--with-wit-results", "--internal"]]),
     ("go", &[&[], &["--generate-stubs"]]),
     ("moonbit", &[&[], &["--async=all"], &["--derive-show", "--derive-eq", "--derive-error"], &["--gen-dir=gen2"]]),
     ("markdown", &[&[], &["--html-in-md"]]),
-    ("d", &[&[]]),
+    ("d", &[&[], &["--required-d-versions=V1", "--required-d-versions=V2", "--required-d-versions=V3", "--required-d-versions=V4"]]),
 ];
 
 fn build(backend: &str, flags: &[&str]) -> Result<Box<dyn WorldGenerator>, String> {
@@ -650,6 +654,14 @@ fn main() {
             let mut out = String::new();
             match o {
                 Ok(files) => {
+                    // optional 6th argument: a directory to write the files to (debugging aid)
+                    if let Some(dir) = args.get(6) {
+                        for (n, b) in &files {
+                            let p = std::path::Path::new(dir).join(n);
+                            let _ = std::fs::create_dir_all(p.parent().unwrap());
+                            let _ = std::fs::write(p, b);
+                        }
+                    }
                     for (n, b) in &files {
                         out.push_str(&format!("FILE {} {:016x} {}\n", b.len(), content_hash(b), n));
                     }
